@@ -16,6 +16,7 @@ CONSTANTS
   BadKind = ""
   Budgets = {0, 1, 99}
   HalfClosed = TRUE
+  Expects = {FALSE}
   UpgAt = 2
   DEV_UpgradeDropsWbuf = FALSE
   KaOn = TRUE
